@@ -191,6 +191,12 @@ pub struct Plan {
     /// stop the process dead at this scheduling step (used to manufacture crashed histories)
     #[serde(default)]
     pub crash_at: Option<usize>,
+    /// bound on scheduling steps (default 5M); variations get 50x what their reference run took
+    #[serde(default)]
+    pub max_steps: Option<usize>,
+    /// bound on CPU seconds (default 30); variations get 40x what their reference run took
+    #[serde(default)]
+    pub cpu_limit_s: Option<u64>,
     /// free-form: what the run that produced this file observed
     #[serde(default)]
     pub expect: Option<serde_json::Value>,
@@ -215,6 +221,8 @@ impl Plan {
             readback: false,
             overrides: vec![],
             crash_at: None,
+            max_steps: None,
+            cpu_limit_s: None,
             expect: None,
         }
     }
